@@ -166,7 +166,14 @@ def recv_fields(body, t, idx=0):
     if o[0] == "arg":
         return o[1], [n for n in proj_names(o[2]) if not n.startswith("as ")]
     if o[0] == "call":
-        return ("call", o[2]["callee"].get("method")), [n for n in proj_names(o[3]) if not n.startswith("as ")]
+        m = o[2]["callee"].get("method")
+        rest = [n for n in proj_names(o[3]) if not n.startswith("as ")]
+        # see through Option::as_ref / as_mut / Deref on a field of an argument
+        if m in ("as_ref", "as_mut", "deref", "deref_mut", "as_deref") and o[2]["argv"]:
+            who, inner = recv_fields(body, o[2], 0)
+            if isinstance(who, int):
+                return who, inner + [r for r in rest if r != "0"]
+        return ("call", m), rest
     return None, []
 
 
@@ -176,3 +183,35 @@ def const_int(body, op):
         v = o[1].get("int")
         return int(v) if isinstance(v, str) else v
     return None
+
+
+def strip_views(t):
+    """Look through Option::as_ref/as_mut/Deref/clone-of-reference views of a term."""
+    while t and t[0] == "call" and t[1].rsplit("::", 1)[-1] in ("as_ref", "as_mut", "deref", "deref_mut", "as_deref", "borrow") and t[2]:
+        t = t[2][0]
+    return t
+
+
+def option_test(cond):
+    """For a path condition (term, value, arms): if it tests an Option for Some/None return (base term, is_some)."""
+    term, val = cond[0], cond[1]
+    if term[0] == "discr":
+        base = strip_views(term[1])
+        if val == 1:
+            return base, True
+        if val == 0:
+            return base, False
+        # `otherwise` edge: Some iff the explicit arms list only 0
+        arms = cond[2] if len(cond) > 2 else []
+        if arms == [0]:
+            return base, True
+        if arms == [1]:
+            return base, False
+        return base, None
+    if term[0] == "call" and term[2]:
+        m = term[1].rsplit("::", 1)[-1]
+        if m == "is_some":
+            return strip_views(term[2][0]), val != 0
+        if m == "is_none":
+            return strip_views(term[2][0]), val == 0
+    return None, None
